@@ -587,3 +587,43 @@ def r8_rotation_tiles(ck, P):
                 ck.violation(R, fn, 'direction of the tiled source walk', '%s passes tiles whose source row changes by %s per destination pixel (destination by %s); a rotation by %s degrees needs %s%s: with more than one whole tile the tiles are taken from the source in the wrong order' % (fn, ds, dd, '90' if want_sign > 0 else '270', '+' if want_sign > 0 else '-', stride), c.loc())
     if n == 0:
         ck.incomplete(R, 'no tiled rotation found')
+
+
+def r9_signed_projective_division(ck, P):
+    """T-WID: source coordinates are signed; so is their quotient by w"""
+    R = ck.rule('C08-R9', 'every division of a source coordinate by the homogeneous coordinate w in the fetchers is a signed division (sdiv): coordinates left of / above the image and negative w are ordinary values', floor=2)
+    n = 0
+    for f in P.functions():
+        if f.unit.name not in ('pixman-bits-image.c', 'pixman-fast-path.c', 'pixman-sse2.c', 'pixman-mmx.c', 'pixman-ssse3.c'):
+            continue
+        wl = set()
+        for x in f.insts():
+            if x.op == 'load':
+                q = list(f.path(x.a[0])[1])
+                if len(q) >= 2 and q[-2] == 'pixman_vector.vector' and q[-1] == '[2]':
+                    wl.add(x.i)
+        if not wl:
+            continue
+        memo = {}
+
+        def dep_w(o, d=0):
+            if o[0] != 'v' or d > 25:
+                return False
+            if o[1] in memo:
+                return memo[o[1]]
+            memo[o[1]] = False
+            x = f.by_id[o[1]]
+            r = x.i in wl or (x.op in ('phi', 'add', 'sub', 'sext', 'zext', 'trunc') and any(dep_w(a, d + 1) for a in x.a))
+            memo[o[1]] = r
+            return r
+
+        for x in f.insts():
+            if x.op not in ('sdiv', 'udiv') or not dep_w(x.a[1]):
+                continue
+            n += 1; ck.saw(f)
+            if x.op == 'sdiv':
+                ck.ok(R, '%s: coordinate / w at %s is signed' % (f.name, x.loc()))
+            else:
+                ck.violation(R, f.name, 'unsigned division by w', '%s divides a source coordinate by w with an unsigned division: for a negative coordinate (outside the image, reached through any repeat mode) or a negative w and a w that is not a power of two the sampled position is garbage' % f.name, x.loc())
+    if n == 0:
+        ck.incomplete(R, 'no division by the homogeneous coordinate found in the fetchers')
